@@ -3,8 +3,8 @@ CONSTANTS
   MaxSteps = 6
   MaxIno = 4
   FIX_REPOINT = TRUE
-  OPS = FALSE
+  OPS = TRUE
   MASK_ADD = TRUE
-  ALIAS_OPS = FALSE
-INVARIANTS NoPanic TablesAgree MarksBacked ListOK
+  ALIAS_OPS = TRUE
+INVARIANTS NoPanic TablesAgree MarksBacked ListOK MaskOK
 CHECK_DEADLOCK FALSE
